@@ -20,4 +20,17 @@ func init() {
 			Scenarios: sc,
 			Rule: lbRule, Assume: lbAssume, Real: lbReal, Stub: lbStub})
 	}
+
+	addPlan(&propertyPlan{ID: "C16",
+		Scenarios: []scenarioPlan{{Name: "zc_reader", Quick: 100000, Thorough: 5000000}, {Name: "zc_writer", Quick: 100000, Thorough: 5000000}},
+		Rule: "one run = one scripted io.Reader (total 0..20000 bytes, per-call counts 0..len(p), final error io.EOF or a foreign error, delivered with the last data or alone) driven by 1-10 generated Reader calls, or one scripted io.Writer (short writes with error, full writes with error, zero writes) driven by 1-12 generated Writer calls and Flushes, or the io adapters over a LinkBuffer; non-trivial = the source/sink was called more than once; distinct = distinct hash of (calls, bytes, operations)",
+		Assume: []string{"io.Reader contract: 0 <= n <= len(p), at most three consecutive (0, nil) reads; io.Writer contract: n < len(p) only together with a non-nil error", "sequential: no schedule dimension"},
+		Real:   []string{"nocopy_readwriter.go, nocopy_linkbuffer.go, nocopy.go (rewritten copy of the current /repo working tree)"},
+		Stub:   []string{"the wrapped io.Reader / io.Writer (scripted from the tape)", "mcache/dirtmake allocator (valloc)"}})
+
+	lifeRule := "one run = one seeded execution of a real server (listener, accept path, 1-2 pollers) with one accepted connection: configuration (which callbacks, how many close callbacks, OnConnect behaviour, per-invocation handler script consume/gate/echo/close/panic), a raw peer that writes a chunked stream with pauses and then stays/closes/half-closes/resets, 0-3 user closers (one may Detach), optional Shutdown; non-trivial = a connection was accepted and the peer wrote, closed or a user closer acted; distinct = distinct hash of the step trace"
+	lifeAssume := []string{"the handler consumes at least one byte per invocation or closes the connection (documented OnRequest contract)", "one reader (the handler) per connection", "AF_UNIX stream sockets on the real kernel", "yields at atomics, syscalls, channel/mutex operations, spawns"}
+	addPlan(&propertyPlan{ID: "C05", Scenarios: []scenarioPlan{{Name: "c05_teardown", Quick: 40000, Thorough: 2500000}, {Name: "c06_handler", Quick: 5000, Thorough: 250000}, {Name: "c09_callbacks", Quick: 5000, Thorough: 250000}}, Rule: lifeRule, Assume: lifeAssume, Real: commonReal, Stub: commonStub})
+	addPlan(&propertyPlan{ID: "C06", Scenarios: []scenarioPlan{{Name: "c06_handler", Quick: 40000, Thorough: 2500000}, {Name: "c05_teardown", Quick: 5000, Thorough: 250000}, {Name: "c09_callbacks", Quick: 5000, Thorough: 250000}}, Rule: lifeRule, Assume: lifeAssume, Real: commonReal, Stub: commonStub})
+	addPlan(&propertyPlan{ID: "C09", Scenarios: []scenarioPlan{{Name: "c09_callbacks", Quick: 40000, Thorough: 2500000}, {Name: "c05_teardown", Quick: 5000, Thorough: 250000}, {Name: "c06_handler", Quick: 5000, Thorough: 250000}}, Rule: lifeRule, Assume: lifeAssume, Real: commonReal, Stub: commonStub})
 }
